@@ -132,7 +132,13 @@ def run(a, res):
                     hs.append(("Last-Modified", base_date(time.time() - 86400 * 30)))
         return Resp(200, hs, length=60)
 
-    lab = Lab(a, res, handler=handler, conf="cache_mem 32 MB\n", clock=True)
+    # most runs give this Squid a unique_hostname that differs from its visible name (clusters behind one public name):
+    # Via carries, and loop detection must look for, the unique name
+    conf = "cache_mem 32 MB\n"
+    if a.seed % 3 != 0:
+        conf += "unique_hostname node7.c63.verif.example\n"
+        res.count("runs_with_unique_hostname")
+    lab = Lab(a, res, handler=handler, conf=conf, clock=True)
     wit = lambda c: {"seed": c["seed"], "case": c["n"]}
 
     def xfer(method, url, headers, req_id, version="HTTP/1.1", body=None, timeout=20):
